@@ -75,7 +75,7 @@ def michael_scott(ctx):
                 ctx.check(ok and n > 0, rid, Q + "push#swing-own|linked", "_tail is swung to the new node only after the link CAS succeeded",
                           "_tail can be advanced to the new node although it was not linked: later pushes append behind an unreachable node (elements lost)", fn.where(t), fn=fn)
             else:
-                ok, path, n = flow.only_via(fn, t, lambda f, nid: f.nodes[nid]["k"] == "bin" and f.nodes[nid]["op"] == "!=" and flow.has_src(f, nid, "load:_next"), True)
+                ok, path, n = flow.only_via_want(fn, t, flow.negate_want(flow.null_want(lambda f, x: flow.has_src(f, x, "load:_next"))))
                 ctx.check(ok and n > 0, rid, Q + "push#help|next!=null", "helping swing only when a successor exists",
                           "_tail is helped forward without checking that a successor is linked", fn.where(t), fn=fn)
         # the link CAS expects null
@@ -84,7 +84,7 @@ def michael_scott(ctx):
             d = None
             if fn.nodes[exp]["k"] == "ref":
                 d = flow.unique_def(fn, fn.nodes[exp]["name"])
-            ok = d is not None and "nullptr" in fn.expr(d)
+            ok = d is not None and (flow.const_value(fn, d) == 0 or flow.srcs(fn, d) <= {"const"})
             ctx.check(ok, rid, Q + "push#link-expects-null", "link CAS expects nullptr", "the link CAS does not expect a null next pointer (an already linked successor is overwritten)", fn.where(l), fn=fn)
         # push returns only after the node was linked
         for r in flow.find(fn, {"k": "return"}):
@@ -96,15 +96,16 @@ def michael_scott(ctx):
         if not heads:
             ctx.bad(rid, Q + "pop_node#head-cas", "no CAS on _head", fn.where(), fn=fn)
             continue
-        lic = lambda f, nid: flow.node_matches(f, nid, HEAD) or (f.nodes[nid]["k"] == "bin" and f.nodes[nid]["op"] == "==" and flow.has_src(f, nid, "load:_next") and "nullptr" in f.expr(nid))
+        next_null = flow.null_want(lambda f, x: flow.has_src(f, x, "load:_next"))
+        lic = lambda f, nid: True if flow.node_matches(f, nid, HEAD) else next_null(f, nid)     # won the _head CAS, or the successor is null (empty)
         for r in rets:
-            ok, path, n = flow.only_via(fn, r, lic, True)
+            ok, path, n = flow.only_via_want(fn, r, lic)
             ctx.check(ok and n > 0, rid, Q + "pop_node#return|won-head-or-empty", "a node is handed out only by the thread that won the _head CAS (or the queue is empty)",
                       "pop_node returns a node without having won the CAS on _head: the element can be delivered twice", fn.where(r), fn=fn, path=flow.describe_path(fn, path))
         # re-validation of _head before the emptiness verdict and before the CAS
-        reval = lambda f, nid: f.nodes[nid]["k"] == "bin" and f.nodes[nid]["op"] in ("!=", "==") and "_head.load" in f.expr(nid)
+        reval = flow.cmp_want(lambda f, x: flow.has_src(f, x, "load:_head"), lambda f, x: flow.has_src(f, x, "load:_head"))   # h == _head.load()
         for r in rets:
-            ok, path, n = flow.only_via(fn, r, reval, False)
+            ok, path, n = flow.only_via_want(fn, r, reval)
             ctx.check(ok and n > 0, rid, Q + "pop_node#head-revalidated", "_head re-validated after reading h->_next",
                       "the successor read from h is used although h may no longer be the head (stale emptiness verdict / stale successor)", fn.where(r), fn=fn)
         lag = lambda f, nid: flow.cmp_between(f, nid, ("==",), ["load:_head"], ["load:_tail"])
@@ -190,7 +191,7 @@ def ramalhete(ctx):
                   "a pop ticket is taken without testing pop_idx >= push_idx first: tickets of an empty node are burnt and later pushes are skipped", fn.where(), fn=fn)
         # values are handed out only if non-null
         for r in [r for r in flow.find(fn, {"k": "return"}) if fn.kids(r) and "get(" in fn.expr(fn.kids(r)[0])]:
-            ok, path, n = flow.only_via(fn, r, lambda f_, nid: f_.nodes[nid]["k"] in ("call", "bin") and flow.has_src(f_, nid, "load:value") and "nullptr" in f_.expr(nid) and "!=" in f_.expr(nid), True)
+            ok, path, n = flow.only_via_want(fn, r, flow.negate_want(flow.null_want(lambda f_, x: flow.has_src(f_, x, "load:value"))))
             ctx.check(ok and n > 0, rid, Q + "pop#return|non-null", "a value is returned only if it is non-null", "pop can return a null slot content", fn.where(r), fn=fn)
     for fn in flow._shapes(ctx, Q + "push"):
         rel = flow.find(fn, call("release"))
